@@ -65,15 +65,20 @@ func rainSeries(r *core.Rand, T int) []float64 {
 
 func petSeries(r *core.Rand, T int) []float64 {
 	s := make([]float64, T)
-	mode := r.Intn(4)
+	mode := r.Intn(5)
 	for t := range s {
 		switch mode {
 		case 0:
 			s[t] = 0
 		case 1:
 			s[t] = r.Range(4, 12) // PET > rain mostly
+		case 2:
+			s[t] = r.Range(8, 40) // extreme evaporative demand (arid heat waves, pan factors)
 		default:
 			s[t] = r.Range(0, 8)
+			if r.Bool(0.03) {
+				s[t] = r.Range(13, 30)
+			}
 		}
 	}
 	return s
